@@ -69,10 +69,17 @@ def rand_case(rng, memos=MEMOS, maxN=40):
 def decorate(rng, c):
     """Variation every evolve case may carry: the shape of the callables, NumPy-scalar parameters, states of a
     magnitude float64 cannot hold (int64 / uint64 automata), rules returning mixed Python / NumPy integer types."""
-    if rng.random() < 0.3:
-        c["callform"] = rng.choice(["lambda", "defaults", "partial", "star", "method"])
+    if rng.random() < 0.4:
+        c["callform"] = rng.choice(["lambda", "defaults", "partial", "star", "method"] + 2 * ["sub_total", "sub_nks", "sub_binary", "sub_base"])
     if rng.random() < 0.15 and not c["rule"].startswith("half"):
         c["mixret"] = "zerod"           # the rule hands back 0-d arrays (np.where(...) on scalars): still "the rule's return value"
+    cells = len(c["hist"][-1]) * (len(c["hist"][-1][0]) if isinstance(c["hist"][-1][0], list) else 1)
+    if rng.random() < 0.12 and cells <= 24 and c.get("T", 3) <= 5:
+        c["nested"] = 1                 # the rule itself runs evolutions of the library (same shape and another one)
+    if rng.random() < 0.1:
+        c["layout"] = "ro"              # the caller's array is read-only
+    if rng.random() < 0.12 and c["dtype"].startswith(("int", "uint")) and not c["rule"].startswith("half") and not c.get("mixret"):
+        c["strict"] = 1                 # np.seterr(all="raise") and warnings as errors: integer automata give no cause for either
     if rng.random() < 0.15:
         c["npform"] = rng.choice(["np64", "np32"])      # signed: an unsigned radius makes -r wrap, the caller's problem
     if c.get("scale", 1) == 1 and c["rule"].startswith(("hash:", "probe:")) and rng.random() < 0.12:
@@ -185,6 +192,12 @@ def _gen(ctx):
     yield dict(kind="ev1", hist=[[1]], dtype="int32", scale=1, r=1, rule="hash:3:2:1:0", T=4, memo="True")
     for _ in range(ctx.n(500, 6000)):
         yield rand_case(rng)
+    for _ in range(ctx.n(60, 600)):
+        # the user's rule SUBCLASSES one of the library's rule classes and overrides __call__ entirely, memoized:
+        # whatever the library knows about the parent class says nothing about the subclass
+        c = rand_case(rng, memos=[m for m in MEMOS if m != "False"])
+        c["callform"] = rng.choice(["sub_total", "sub_nks", "sub_binary", "sub_base"])
+        yield c
     for _ in range(ctx.n(60, 600)):
         # sequences of evolve calls in one process: same states, different rules back to back
         N = rng.choice([3, 4, 5, 8, 9])
